@@ -19,6 +19,7 @@ from . import common as C
 
 PROP = "C13"
 PROPS_MODULES = ["AsyncFix.Props.C13"]
+FINDINGS_MODULE = "AsyncFix.Findings.C13"
 ASSUMPTIONS = [
     "CompIDs are Python str without lone surrogates, message arguments are bytes, FIXSession counters are ints, "
     "directions are MessageDirection members (other argument types are outside the model)",
@@ -95,7 +96,7 @@ class Impl:
             s = FIXSession(77, "X", "Y")
             s.next_num_out = s.next_num_in = 1
             self.pool.append(s)
-        return self.pool[ref % len(self.pool)]
+        return self.pool[ref] if ref < len(self.pool) else self.pool[ref % len(self.pool)]
 
     def tx(self):
         return " tx=1" if self.j.conn.in_transaction else " tx=0"
@@ -300,29 +301,45 @@ def gen_sequence(rng, maxlen, file_backed=False):
     ops = [("col",) + p for p in pairs[: rng.randint(2, 4)]]
     stored = []  # (ref, dir, hex) candidates for duplicates
     every = rng.random() < 0.25
+    refs = [0, 0, 0, 1, 1, 2, 3, 5, 7]
     while len(ops) < n:
         v = rng.random()
         if v < 0.10:
             ops.append(("col",) + rng.choice(pairs))
         elif v < 0.50:
-            ref, d = rng.randrange(8), rng.randint(0, 1)
+            ref, d = rng.choice(refs), rng.randint(0, 1)
             w = rng.random()
-            if stored and w < 0.22:
-                ops.append(("persist",) + rng.choice(stored))  # duplicate (same handle slot, direction, bytes)
+            if stored and w < 0.25:
+                ops.append(("persist",) + rng.choice(stored)[:3])  # duplicate (same handle slot, direction, bytes)
                 continue
             if w < 0.30:
                 kind = rng.choice(["nopat", "nosoh", "bare", "ok"])
                 m = frame(rng, rng.choice(BAD_NUM) if kind == "ok" else b"5", kind)
+                num = None
             else:
-                m = frame(rng, num_text(rng, pick_num(rng, st)))
-            stored.append((ref, d, m.hex()))
+                num = pick_num(rng, st)
+                m = frame(rng, num_text(rng, num))
+            stored.append((ref, d, m.hex(), num))
             ops.append(("persist", ref, d, m.hex()))
         elif v < 0.62:
             o = None if rng.random() < 0.4 else rng.choice([1, 1, 2, 3, 5, rng.randint(1, 60), 2**31, 2**62, 0, -1, I63, I63 + 1])
             i = None if rng.random() < 0.5 else rng.choice([1, 1, 2, 3, 5, rng.randint(1, 60), 2**31, 2**62, 0, -2, I63, I63 + 1])
-            ops.append(("set", rng.randrange(8), o, i))
+            ops.append(("set", rng.choice(refs), o, i))
         elif v < 0.78:
-            ops.append(("rec", rng.randrange(8), rng.randint(0, 1), pick_bound(rng, st), pick_bound(rng, st)))
+            w = rng.random()
+            known = [e for e in stored if e[3] is not None and -I63 <= e[3] < I63]
+            if known and w < 0.45:
+                # a query around a number that was stored (same slot; same or the other direction)
+                ref, d, _, num = rng.choice(known)
+                lo = rng.choice([num, num - 1, num - rng.randint(0, 50), -I63, str(num)])
+                hi = rng.choice([num, num + 1, num + rng.randint(0, 50), I63 - 1, str(num), "x"])
+                ops.append(("rec", ref, d if rng.random() < 0.8 else 1 - d, max(lo, -I63) if isinstance(lo, int) else lo,
+                            min(hi, I63 - 1) if isinstance(hi, int) else hi))
+            elif w < 0.6:
+                ops.append(("rec", rng.choice(refs), rng.randint(0, 1), rng.choice([-I63, 0, 1, "0", " 1"]),
+                            rng.choice([I63 - 1, "abc", 2**62 + 9, "9223372036854775808"])))
+            else:
+                ops.append(("rec", rng.choice(refs), rng.randint(0, 1), pick_bound(rng, st), pick_bound(rng, st)))
         elif v < 0.83:
             ops.append(("rec1", rng.randrange(8), rng.randint(0, 1), pick_bound(rng, st)))
         elif v < 0.89:
@@ -336,6 +353,17 @@ def gen_sequence(rng, maxlen, file_backed=False):
             ops.append(("restart",))
         if every or rng.random() < 0.45:
             ops.append(("obs",))
+    if rng.random() < 0.5:
+        # a tail that makes the sequence non-trivial whatever happened before: store, store again (duplicate),
+        # query across sessions/directions, renumber just above / at / below the stored number
+        ref, d = rng.choice([0, 1]), rng.randint(0, 1)
+        num = rng.choice([3, 41, 2**31 + 7, 2**62 + 7, st["desc"] - 1])
+        m = frame(rng, num_text(rng, num)).hex()
+        tail = [("persist", ref, d, m), ("obs",), ("persist", ref, d, m), ("rec", ref, d, -I63, I63 - 1),
+                ("rec", 1 - ref, d, -I63, I63 - 1), ("rec", ref, 1 - d, num, num), ("sessions",),
+                ("set", len(ops) + 50, *rng.choice([(num + 1, num + 1), (num, None), (None, num), (1, 1)])),
+                ("rec", ref, d, -I63, I63 - 1)]
+        ops += tail
     ops.append(("obs",))
     return ops
 
@@ -551,7 +579,8 @@ def oracle_sequence(rng, maxlen):
                 n = pick_num(rng, st)
             ops.append(("persist", sid, rng.randint(0, 1), n, frame(rng, num_text(rng, n)).hex()))
         elif v < 0.62:
-            ops.append(("set", sid, rng.choice([None, 1, 2, 3, 6, 2**31, 2**62]), rng.choice([None, 1, 2, 4, 2**31])))
+            ops.append(("set", sid, rng.choice([None, 1, 2, 3, 6, 2**31, 2**62, 0, I63 + 1]),
+                        rng.choice([None, 1, 2, 4, 2**31, -1, I63 + 7])))
         elif v < 0.9:
             lo, hi = pick_num(rng, st), pick_num(rng, st)
             if rng.random() < 0.5:
@@ -574,6 +603,7 @@ def oracle_run(ops):
     ref = Ref()
     handles = {}
     fails = []
+    half = {"seen": False}
 
     def dirv(d):
         return D.OUTBOUND if d == 1 else D.INBOUND
@@ -627,13 +657,21 @@ def oracle_run(ops):
                 _, sid, o, i = op
                 h = handles.get(sid) or handles[min(handles)]
                 sid = h.key
-                j.set_seq_num(h, next_num_out=o, next_num_in=i)
-                o2, i2 = h.next_num_out, h.next_num_in
-                if (o is not None and o2 != o) or (i is not None and i2 != i):
-                    fails.append(("C13-set-session-object", "set_seq_num did not set the session object", {"at": idx}))
-                ref.counters[sid] = [o2 - 1, i2 - 1]
-                for key in [key for key in ref.store if key[0] == sid and key[2] >= (o2 if key[1] == 1 else i2)]:
-                    del ref.store[key]
+                eo = h.next_num_out if o is None else o
+                ei = h.next_num_in if i is None else i
+                if I63 in (eo, ei):
+                    half["seen"] = True
+                try:
+                    j.set_seq_num(h, next_num_out=o, next_num_in=i)
+                except (AssertionError, OverflowError):
+                    pass  # a call that raises must change nothing (checked by check_state against the unchanged reference)
+                else:
+                    o2, i2 = h.next_num_out, h.next_num_in
+                    if (o is not None and o2 != o) or (i is not None and i2 != i):
+                        fails.append(("C13-set-session-object", "set_seq_num did not set the session object", {"at": idx}))
+                    ref.counters[sid] = [o2 - 1, i2 - 1]
+                    for key in [key for key in ref.store if key[0] == sid and key[2] >= (o2 if key[1] == 1 else i2)]:
+                        del ref.store[key]
             elif k == "rec":
                 _, sid, d, lo, hi = op
                 h = handles.get(sid) or handles[min(handles)]
@@ -654,6 +692,10 @@ def oracle_run(ops):
         if len(fails) > n0 or fails:
             break
     del j
+    if half["seen"]:
+        # input class of the known finding: a set_seq_num whose effective next number is exactly 2**63
+        fails = [("C13-set-seq-num-overflow-half-applied", "set_seq_num raised OverflowError after changing the counters "
+                  "and before deleting the messages: " + f[1], f[2]) for f in fails]
     return fails
 
 
@@ -673,12 +715,15 @@ def shrink(ops, sig):
     return cur
 
 
+WITNESS = [("col", "T", "S"), ("persist", 1, 1, 1, (b"\x0134=1\x01").hex()), ("set", 1, 1, I63)]
+
+
 def oracle(ctx, disagreements, broken):
     n = ctx.n(300, 1500) * (6 if broken else 1)
     failures, runs = [], 0
     seen = set()
     for i in range(n):
-        ops = oracle_sequence(ctx.rng, 14 if not broken else 24)
+        ops = WITNESS if i == 0 else oracle_sequence(ctx.rng, 14 if not broken else 24)
         runs += 1
         for sig, what, detail in oracle_run(ops):
             if sig in seen:
@@ -688,7 +733,7 @@ def oracle(ctx, disagreements, broken):
             det = [f for f in oracle_run(small) if f[0] == sig]
             failures.append({"signature": sig, "what": what, "input": [list(o) for o in small],
                              "expected": "agreement with the reference map", "observed": det[0][2] if det else detail})
-        if len(seen) >= 4:
+        if len(seen) >= 5:
             break
     ctx.oracle_stats = {"sequences": runs, "failures": len(failures), "searched_harder": bool(broken)}
     return failures
